@@ -8,9 +8,15 @@ RunOk(t, w, r) == r = Accepts(t, w)
 Bad(e) ==
   CASE e.op = "panic" -> {e.where}
     [] e.op = "mem" ->
-         LET t == Core(e.ast) IN
+         LET t == Core(e.ast)
+             \* records made while several managers were alive and used alternately also count for C07: the language
+             \* of a construction does not depend on what other managers exist or did
+             il == "interleaved" \in DOMAIN e
+             ok == e.nullable = Nullable(t) /\ \A j \in 1..Len(e.words) : RunOk(t, e.words[j], e.res[j])
+         IN
          Failed({<<"C01:nullable", e.nullable = Nullable(t)>>,
-                 <<"C01:str_in_re", \A j \in 1..Len(e.words) : RunOk(t, e.words[j], e.res[j])>>})
+                 <<"C01:str_in_re", \A j \in 1..Len(e.words) : RunOk(t, e.words[j], e.res[j])>>,
+                 <<"C07:language_independent_of_other_managers", il => ok>>})
     [] e.op = "empty" ->
          LET t == Core(e.ast)
              wOk == e.has_w => /\ (e.w_check => Accepts(t, e.w)) /\ e.w_in_re /\ e.w_acc /\ e.w_good
